@@ -14,7 +14,9 @@
 (*                number literals, module constants; unary, binary, min /  *)
 (*                max, comparisons incl. == != and chains, and/or/not,     *)
 (*                conditional expressions, calls of the library functions  *)
-(*                Lib with arbitrary - hence permuted - arguments)         *)
+(*                Lib with arbitrary - hence permuted - arguments, bound   *)
+(*                positionally, by keyword in any order, mixed, or left to *)
+(*                a default: CallModes)                                    *)
 (*   Commit       the statement enters the innermost open block            *)
 (*   AddLoop      (just outside the subset) a counting while loop or a for *)
 (*                loop over a literal range; Start also offers augmented   *)
@@ -52,6 +54,7 @@ CONSTANTS
     BoolOn,         \* subset of {"and", "or", "not"}
     IteOn,          \* TRUE: conditional expressions
     CallOn,         \* subset of DOMAIN Lib
+    CallModes,      \* how call arguments are bound: subset of {"pos", "kw", "kwrev", "mix", "def", "defkw"}
     AugOn,          \* operators offered for augmented assignments  x op= e   (just outside the translator's subset)
     PassOn,         \* TRUE: an if-branch may be empty (rendered as `pass`): it falls through without binding anything
     ChainOn,        \* TRUE: chained assignments x1 = x2 = e, x2 possibly a parameter (just outside the subset)
@@ -79,7 +82,8 @@ Lib ==
                                       If(Cmp2("eq", B, Num(1)), <<Assign("y", Bin("add", Y, B))>>, <<>>),
                                       Ret(Bin("sub", Y, B))>>),
      nest  |-> FnDef(<<"a", "b">>, <<Ret(Bin("mul", Call("sub2", <<B, A>>), Num(2)))>>),
-     kmul  |-> FnDef(<<"a">>, <<Ret(Bin("mul", A, Const("K")))>>)]
+     kmul  |-> FnDef(<<"a">>, <<Ret(Bin("mul", A, Const("K")))>>),
+     dflt  |-> FnDefD(<<"a", "b">>, <<RFromInt(3)>>, <<Ret(Bin("sub", Bin("mul", A, Num(2)), B))>>)]     \* def dflt(a, b=3.0)
 
 ConstTab == [K |-> ConstDef(RFromInt(4)), H |-> ConstDef(R(1, 2))]
 FT == Lib @@ ConstTab
@@ -144,10 +148,24 @@ Start ==
 \* A token is [k, s, s2, i, ar]: tag, string payloads (name / operator), integer payload, number of children.
 Building == ~done /\ want.k # "none" /\ todo # <<>>
 
+\* a call token carries its binding mode in s2; MkCall turns the argument expressions (source order) into the node
+\*   pos    f(x, y)        kw   f(a=x, b=y)      kwrev  f(b=x, a=y)      mix  f(x, b=y)
+\*   def    f(x)           defkw f(a=x)          (last parameter left to its default)
+ModesOf(f) == {m \in CallModes : /\ (m \in {"def", "defkw"} => Len(DefsOf(Lib[f])) > 0)
+                                  /\ (m = "mix" => Len(Lib[f].params) >= 2)}
+CallArity(f, m) == IF m \in {"def", "defkw"} THEN Len(Lib[f].params) - 1 ELSE Len(Lib[f].params)
+MkCall(tk, args) ==
+    LET ps == Lib[tk.s].params
+        na == Len(args)
+    IN CASE tk.s2 \in {"pos", "def"} -> Call(tk.s, args)
+         [] tk.s2 \in {"kw", "defkw"} -> CallKw(tk.s, args, [j \in 1..na |-> ps[j]])
+         [] tk.s2 = "kwrev" -> CallKw(tk.s, args, [j \in 1..na |-> ps[na + 1 - j]])
+         [] tk.s2 = "mix" -> CallKw(tk.s, args, [j \in 1..na |-> IF j = 1 THEN "" ELSE ps[j]])
+
 NumAtoms == {Tok("var", x, "", 0, 0) : x \in Scope} \cup {Tok("num", "", "", i, 0) : i \in NumLits}
             \cup {Tok("const", c, "", 0, 0) : c \in ConstNames}
 NumOps == {Tok(op, "", "", 0, 1) : op \in UnOn} \cup {Tok(op, "", "", 0, 2) : op \in BinOn}
-          \cup {Tok("call", f, "", 0, Len(Lib[f].params)) : f \in CallOn}
+          \cup UNION {{Tok("call", f, m, 0, CallArity(f, m)) : m \in ModesOf(f)} : f \in CallOn}
 CmpToks == {Tok("cmp", op, "", 0, 2) : op \in CmpOn}
            \cup (IF Chains THEN {Tok("cmp", o1, o2, 0, 3) : o1 \in CmpOn, o2 \in CmpOn} ELSE {})
 BoolToks == {Tok(op, "", "", 0, IF op = "not" THEN 1 ELSE 2) : op \in BoolOn}
@@ -186,17 +204,17 @@ Parse(ts, pos) ==
     IF tk.ar = 0
     THEN [e |-> IF tk.k = "var" THEN Var(tk.s) ELSE IF tk.k = "num" THEN Num(tk.i) ELSE Const(tk.s), next |-> pos + 1]
     ELSE LET c1 == Parse(ts, pos + 1) IN
-         IF tk.ar = 1 THEN [e |-> IF tk.k = "call" THEN Call(tk.s, <<c1.e>>) ELSE [k |-> tk.k, a |-> c1.e], next |-> c1.next]
+         IF tk.ar = 1 THEN [e |-> IF tk.k = "call" THEN MkCall(tk, <<c1.e>>) ELSE [k |-> tk.k, a |-> c1.e], next |-> c1.next]
          ELSE LET c2 == Parse(ts, c1.next) IN
               IF tk.ar = 2
               THEN [e |-> CASE tk.k = "cmp" -> Cmp2(tk.s, c1.e, c2.e)
-                            [] tk.k = "call" -> Call(tk.s, <<c1.e, c2.e>>)
+                            [] tk.k = "call" -> MkCall(tk, <<c1.e, c2.e>>)
                             [] tk.k \in {"min", "max", "and", "or"} -> [k |-> tk.k, args |-> <<c1.e, c2.e>>]
                             [] OTHER -> Bin(tk.k, c1.e, c2.e),
                     next |-> c2.next]
               ELSE LET c3 == Parse(ts, c2.next) IN
                    [e |-> CASE tk.k = "cmp" -> Cmp(<<tk.s, tk.s2>>, <<c1.e, c2.e, c3.e>>)
-                            [] tk.k = "call" -> Call(tk.s, <<c1.e, c2.e, c3.e>>)
+                            [] tk.k = "call" -> MkCall(tk, <<c1.e, c2.e, c3.e>>)
                             [] tk.k = "ite" -> Ite(c1.e, c2.e, c3.e),
                     next |-> c3.next]
 Parsed == Parse(toks, 1).e
